@@ -16,6 +16,7 @@ from __future__ import annotations
 
 import hashlib
 import json
+import os
 import random
 
 from vf import common, pool
@@ -37,17 +38,15 @@ def _h(s):
 
 
 def _role(t):
+  """Which kind of argument a type stands for (*seq items count as positional
+  arguments, **map entries as keyword arguments)."""
   if isinstance(t, list):
     return t[0]
-  if t.startswith("K_"):
+  if t.startswith("K_") or t.startswith("Q_"):
     return "keyword arg"
-  if t.startswith("Q_"):
-    return "**map entry"
   if t.startswith("D_"):
     return "default"
-  if t.startswith("S") and t[1:].isdigit():
-    return "*seq item"
-  if t in ("int", "str", "float", "bytes", "complex") or (t.startswith("P") and t[1:].isdigit()):
+  if t in ("int", "str", "float", "bytes", "complex") or (t[0] in "PS" and t[1:].isdigit()):
     return "positional arg"
   return "type " + t
 
@@ -111,10 +110,10 @@ def judge(units, acc=None):
           _cnt(acc, f"non-arity errors on call lines: {other}")
       if not cp["ok"]:
         if not arity:
-          v = {"direction": "missed", "clause": cp["clause"], "detail": cp["msg"]}
+          v = {"direction": "missed", "items": [cp["clause"]], "detail": cp["msg"]}
       else:
         if arity:
-          v = {"direction": "spurious", "clause": "pytype reports " + ",".join(arity),
+          v = {"direction": "spurious", "items": ["pytype reports " + ",".join(arity)],
                "detail": "; ".join(m for n, m in errs if n in ARITY)[:300]}
         else:
           t = consts.get(f"r{k}_{i}")
@@ -123,9 +122,11 @@ def judge(units, acc=None):
           if acc is not None:
             _cnt(acc, "bindings compared (parameters)", len(names))
           if mism:
-            cl = sorted({f"{_pgroup(n)} differs" if n in ("va", "kw") else
-                         f"{_pgroup(n)}: CPython {_role(e)}, pytype {_role(g)}" for n, e, g in mism})
-            v = {"direction": "wrong binding", "clause": "; ".join(cl),
+            # what differs on named parameters; a difference confined to *va / **kw is its own item
+            named = sorted({f"{_pgroup(n)}: CPython {_role(e)}, pytype {_role(g)}"
+                            for n, e, g in mism if n not in ("va", "kw")})
+            rest = sorted({f"{_pgroup(n)} differs" for n, e, g in mism if n in ("va", "kw")})
+            v = {"direction": "wrong binding", "items": named or rest,
                  "detail": [[n, e, g] for n, e, g in mism], "other_errors": other}
       if v is not None:
         v["expr"] = exprs[(k, i)]
@@ -239,46 +240,105 @@ def _ckey(kind, sig, call):
   return json.dumps([kind, sig, call], sort_keys=True)
 
 
-def shrink(cases, memo, max_rounds=14, cap=900):
-  """cases: dicts with kind, sig, call, direction, clause.  In place."""
+def shrink(cases, memo, max_rounds=40, lazy=3):
+  """cases: dicts with kind, sig, call, direction, item.  Shrinks in place: a smaller
+  neighbour is taken when both sides, re-run on it, still disagree in the same direction
+  with the same item.  Per round only the first `lazy` untested neighbours of each case are
+  evaluated (one analysed module per round)."""
   stats = {"rounds": 0, "candidate_calls": 0}
   for _ in range(max_rounds):
-    per_case = []
     todo = {}
     for c in cases:
-      lst = list(moves(c["kind"], c["sig"], c["call"]))
-      per_case.append(lst)
-      for x in lst:
+      k = 0
+      for x in moves(c["kind"], c["sig"], c["call"]):
         key = _ckey(*x)
-        if key not in memo and key not in todo and len(todo) < cap:
-          todo[key] = x
+        if key in memo:
+          m = memo[key]
+          if m and m[0] == c["direction"] and c["item"] in m[1]:
+            break     # an accepted neighbour is already known
+          continue
+        todo.setdefault(key, x)
+        k += 1
+        if k >= lazy:
+          break
     if todo:
       items = list(todo.items())
       for lo in range(0, len(items), 300):
         chunk = items[lo:lo + 300]
-        verdicts, _ = judge([(k, s, [c]) for _, (k, s, c) in chunk])
+        verdicts, _ = judge([(k, sg, [cl]) for _, (k, sg, cl) in chunk])
         for (key, _), row in zip(chunk, verdicts):
           v = row[0]
-          memo[key] = (v["direction"], v["clause"], v["detail"], v["expr"]) if v else None
+          memo[key] = (v["direction"], v["items"], v["detail"], v["expr"]) if v else None
       stats["candidate_calls"] += len(items)
     stats["rounds"] += 1
     changed = False
-    for c, lst in zip(cases, per_case):
-      for x in lst:
-        m = memo.get(_ckey(*x))
-        if m and m[0] == c["direction"] and m[1] == c["clause"]:
+    for c in cases:
+      for x in moves(c["kind"], c["sig"], c["call"]):
+        key = _ckey(*x)
+        if key not in memo:
+          break       # order matters: wait for the earlier neighbours' verdicts
+        m = memo[key]
+        if m and m[0] == c["direction"] and c["item"] in m[1]:
           c["kind"], c["sig"], c["call"] = x
           c["detail"], c["expr"] = m[2], m[3]
           changed = True
           break
-    if not changed:
+    if not changed and not todo:
       break
   return stats
 
 
 def mechanism_key(c):
   return (f"{c['direction']} | {c['kind']} | def f({S.params_text(c['sig'])}) | f({S.args_text(c['call'])}) | "
-          f"{c['clause']}")
+          f"{c['item']}")
+
+
+def _size(c):
+  sg, cl = c["sig"], c["call"]
+  return (len(sg["po"]) + len(sg["pk"]) + len(sg["ko"]) + sg["va"] + sg["kw"] + cl["npos"] + len(cl["kws"])
+          + (cl.get("star") or 0) + len(cl.get("dstar") or []) + (c["kind"] != "func"))
+
+
+def embeds(small, big):
+  """Static test: can `small` (a shrunk case) be obtained from `big` by the deletions of
+  moves()?  Used to attribute further members of a (direction, item) group to a shrunk
+  form without re-running them; anything not embedded is shrunk for real."""
+  import itertools
+  if small["kind"] not in ("func", big["kind"]):
+    return False
+  ss, bs, sc, bc = small["sig"], big["sig"], small["call"], big["call"]
+  if (ss["va"] and not bs["va"]) or (ss["kw"] and not bs["kw"]):
+    return False
+  if sc["npos"] + (sc.get("star") or 0) > bc["npos"] + (bc.get("star") or 0):
+    return False
+  if (sc.get("star") is not None and bc.get("star") is None) or (
+      sc.get("dstar") is not None and bc.get("dstar") is None):
+    return False
+  bkw = set(bc["kws"]) | set(bc.get("dstar") or [])
+  skw = list(sc["kws"]) + list(sc.get("dstar") or [])
+  choices = []
+  for g in ("po", "pk", "ko"):
+    n, m = len(ss[g]), len(bs[g])
+    if n > m:
+      return False
+    # defaults may be dropped by a move, so small's flag <= big's flag
+    choices.append([t for t in itertools.combinations(range(m), n)
+                    if all(ss[g][a] <= bs[g][b] for a, b in enumerate(t))])
+  for po, pk, ko in itertools.product(*choices):
+    ren = {}
+    for letter, t in (("a", po), ("b", pk), ("c", ko)):
+      for a, b in enumerate(t):
+        ren[f"{letter}{a}"] = f"{letter}{b}"
+    ok = True
+    for n in skw:
+      if n in ren:
+        if ren[n] not in bkw:
+          ok = False
+      elif not (bkw & set(S.UNKNOWN)):
+        ok = False
+    if ok:
+      return True
+  return False
 
 
 # --------------------------------------------------------------------------
@@ -328,6 +388,13 @@ def child(arg):
       units.append((kind, sig, calls))
   elif mode == "units":
     units = [(k, s, cs) for k, s, cs in arg["units"]]
+  elif mode == "shrink":
+    cases = [dict(c) for c in arg["cases"]]
+    st = shrink(cases, {})
+    for c in cases:
+      c["key"] = mechanism_key(c)
+      c["def"] = S.callee_text(c["kind"], c["sig"], 0)[0]
+    return {"cases": cases, "shrink": st, "group": arg.get("group")}
   fps = set()
   cases = []
   batch, ncalls = [], 0
@@ -338,7 +405,7 @@ def child(arg):
     nonlocal batch, ncalls, sample, modules
     if not batch:
       return
-    verdicts, src = judge(batch, acc)
+    verdicts, _ = judge(batch, acc)
     modules += 1
     for (kind, sig, calls), row in zip(batch, verdicts):
       sk = S.sig_skeleton(sig)
@@ -346,9 +413,9 @@ def child(arg):
         if nontrivial(sig, c):
           fps.add(_h(f"{kind}|{sk}|{json.dumps(c, sort_keys=True)}"))
         if v is not None:
-          cases.append({"kind": kind, "sig": sig, "call": c, "direction": v["direction"],
-                        "clause": v["clause"], "detail": v["detail"], "expr": v["expr"],
-                        "original": {"kind": kind, "sig": sig, "call": c}})
+          for item in v["items"]:
+            cases.append({"kind": kind, "sig": sig, "call": c, "direction": v["direction"],
+                          "item": item, "detail": v["detail"], "expr": v["expr"]})
     if sample is None:
       kind, sig, calls = batch[0]
       sample = {"kind": kind, "def": S.callee_text(kind, sig, 0)[0], "n_calls": len(calls),
@@ -361,36 +428,9 @@ def child(arg):
     if len(batch) >= UNITS_PER_MODULE or ncalls >= CALLS_PER_MODULE:
       flush()
   flush()
-  # shrink disagreements (dedupe identical cases first)
-  uniq = {}
-  for c in cases:
-    uniq.setdefault(_ckey(c["kind"], c["sig"], c["call"]), c)
-  todo = list(uniq.values())
-  memo = {}
-  sh = {"rounds": 0, "candidate_calls": 0}
-  max_shrink = arg.get("max_shrink", 400)
-  if todo:
-    sh = shrink(todo[:max_shrink], memo)
-  viol = []
-  for n, c in enumerate(todo):
-    if n < max_shrink:
-      key = mechanism_key(c)
-    else:
-      key = (f"{c['direction']} | {c['kind']} | {S.sig_skeleton(c['sig'])} | {S.call_skeleton(c['call'])} | "
-             f"{c['clause']} (not shrunk)")
-    viol.append({"key": key, "kind": c["kind"], "sig": c["sig"], "call": c["call"], "expr": c["expr"],
-                 "direction": c["direction"], "clause": c["clause"], "detail": c["detail"],
-                 "def": S.callee_text(c["kind"], c["sig"], 0)[0], "original": c["original"]})
-  by_key = {}
-  for v in viol:
-    by_key.setdefault(v["key"], []).append(v)
-  shipped = []
-  for key, vs in by_key.items():
-    vs[0]["instances_in_batch"] = len(vs)
-    shipped.append(vs[0])
   return {"n": acc["n"], "fps": sorted(fps), "counters": acc["c"], "errkinds": acc["errkinds"],
-          "violations": shipped[:80], "nviol_cases": len(cases), "samples": [sample] if sample else [],
-          "modules": modules, "units": len(units), "shrink": sh, "not_covered": not_covered}
+          "cases": cases[:6000], "ncases": len(cases), "samples": [sample] if sample else [],
+          "modules": modules, "units": len(units), "not_covered": not_covered}
 
 
 # --------------------------------------------------------------------------
@@ -404,7 +444,7 @@ def _tasks(tier, seed):
 
   def add(tid, **arg):
     arg["seed"] = rng.randrange(1 << 30)
-    tasks.append({"fn": "vf.checks.c13:child", "arg": arg, "id": tid, "timeout": 2400})
+    tasks.append({"fn": "vf.checks.c13:child", "arg": arg, "id": tid, "timeout": 5400})
 
   if tier == "quick":
     ns1 = 23
@@ -446,10 +486,16 @@ def run(tier, seed):
             "(callee kind, signature kind vector, call shape)."))
   tasks, info = _tasks(tier, seed)
   ck.extra["exhaustive_slices"] = info
+  sub = float(os.environ.get("VERIF_SUBSAMPLE", "1"))
+  if sub < 1:   # development aid only: run a seeded fraction of the batches
+    r = random.Random(f"{PID}-{seed}-subsample")
+    tasks = [t for t in tasks if r.random() < sub]
+    ck.extra["SUBSAMPLED_RUN_fraction_of_batches"] = sub
   errkinds = {}
   not_covered = 0
-  shrink_stats = {"rounds": 0, "candidate_calls": 0}
   complete = True
+  all_cases = []
+  dropped = 0
   for res in pool.run_tasks(tasks):
     tid = str(res.get("task"))
     if not res.get("ok"):
@@ -467,12 +513,13 @@ def run(tier, seed):
       ck.sample(s)
     ck.count("modules analysed", r["modules"])
     ck.count("callees generated", r["units"])
-    ck.count("disagreeing calls (before shrinking / dedupe)", r["nviol_cases"])
+    ck.count("disagreeing (call, item) pairs", r["ncases"])
+    dropped += r["ncases"] - len(r["cases"])
+    all_cases.extend(r["cases"])
     not_covered += r["not_covered"]
-    for k in shrink_stats:
-      shrink_stats[k] += r["shrink"][k]
-    for w in r["violations"]:
-      ck.violation(w.pop("key"), w)
+  shrink_stats = _attribute(ck, all_cases, seed)
+  if dropped:
+    ck.count("disagreeing pairs not shipped by children (cap)", dropped)
   ck.extra["pytype_error_kinds_seen"] = errkinds
   ck.extra["shrinking"] = shrink_stats
   ck.extra["exhaustive_slices_complete"] = complete
@@ -489,10 +536,83 @@ def run(tier, seed):
   return ck.finish()
 
 
+def _attribute(ck, cases, seed, per_wave=4, waves=4):
+  """Phase 2: gives every disagreeing (call, item) a mechanism key.  Per (direction, item)
+  group the smallest cases are shrunk by re-running both sides (child mode "shrink"); other
+  members that statically embed a shrunk form get its key; the rest go to the next wave."""
+  stats = {"rounds": 0, "candidate_calls": 0, "shrunk_by_rerun": 0, "attributed_by_embedding": 0,
+           "left_unshrunk": 0}
+  groups = {}
+  seen = set()
+  for c in cases:
+    k = (_ckey(c["kind"], c["sig"], c["call"]), c["direction"], c["item"])
+    if k in seen:
+      continue
+    seen.add(k)
+    groups.setdefault((c["direction"], c["item"]), []).append(c)
+  for g in groups.values():
+    g.sort(key=lambda c: (_size(c), _ckey(c["kind"], c["sig"], c["call"])))
+  forms = {g: [] for g in groups}      # shrunk forms per group
+  pending = dict(groups)
+  for _ in range(waves):
+    tasks = []
+    for g, members in pending.items():
+      rest = []
+      for c in members:
+        hit = next((f for f in forms[g] if embeds(f, c)), None)
+        if hit is not None:
+          stats["attributed_by_embedding"] += 1
+          ck.violation(hit["key"], _wit(hit, c, "embedding"))
+        else:
+          rest.append(c)
+      pending[g] = rest
+      if rest:
+        tasks.append({"fn": "vf.checks.c13:child", "id": f"shrink/{len(tasks)}", "timeout": 5400,
+                      "arg": {"mode": "shrink", "seed": seed, "group": list(g), "cases": rest[:per_wave]}})
+    if not tasks:
+      break
+    sent = {tuple(t["arg"]["group"]): t["arg"]["cases"] for t in tasks}
+    for res in pool.run_tasks(tasks):
+      if not res.get("ok"):
+        ck.child_failed(res, f"C13 shrink {res.get('task')}")
+        continue
+      r = res["result"]
+      stats["rounds"] += r["shrink"]["rounds"]
+      stats["candidate_calls"] += r["shrink"]["candidate_calls"]
+      g = tuple(r["group"])
+      for orig, f in zip(sent[g], r["cases"]):
+        forms[g].append(f)
+        stats["shrunk_by_rerun"] += 1
+        ck.violation(f["key"], _wit(f, orig, "shrinking (both sides re-run at every step)"))
+      pending[g] = pending[g][len(sent[g]):]
+  for g, members in pending.items():
+    for c in members:
+      hit = next((f for f in forms[g] if embeds(f, c)), None)
+      if hit is not None:
+        ck.violation(hit["key"], _wit(hit, c, "embedding"))
+      else:
+        stats["left_unshrunk"] += 1
+        key = (f"{c['direction']} | {c['kind']} | {S.sig_skeleton(c['sig'])} | {S.call_skeleton(c['call'])} | "
+               f"{c['item']} (not shrunk)")
+        ck.violation(key, _wit(None, c, "none"))
+  return stats
+
+
+def _wit(form, c, how):
+  w = {"direction": c["direction"], "item": c["item"],
+       "original": {"kind": c["kind"], "sig": c["sig"], "call": c["call"], "expr": c["expr"],
+                    "def": S.callee_text(c["kind"], c["sig"], 0)[0], "detail": c["detail"]},
+       "attributed_by": how}
+  if form is not None:
+    w.update({"kind": form["kind"], "sig": form["sig"], "call": form["call"], "expr": form["expr"],
+              "def": form["def"], "detail": form["detail"]})
+  return w
+
+
 def replay(rec):
   w = rec["witness"]
   status = 0
-  for label, case in (("shrunk", w), ("original", w.get("original"))):
+  for label, case in (("shrunk", w if "sig" in w else None), ("original", w.get("original"))):
     if not case:
       continue
     verdicts, src = judge([(case["kind"], case["sig"], [case["call"]])])
@@ -501,7 +621,7 @@ def replay(rec):
     print(src)
     if v:
       print(f"VIOLATION property={PID} replay=<replayed>")
-      print(f"  {v['direction']}: {v['clause']} :: {v['detail']}")
+      print(f"  {v['direction']}: {v['items']} :: {v['detail']}")
       status = 1
     else:
       print("no disagreement")
